@@ -213,6 +213,12 @@ Resolve(s, ts) ==
 
 ParseMsg(msg) == Resolve(FoldL(MergeEntity, EmptyState, msg.ents), msg.ts)
 
+(* the sizes of the merge tables before each entity and after the last one: what the rt.merge / rt.merged hooks report *)
+Sizes(s) == <<Cardinality(DOMAIN s.tb), Cardinality(DOMAIN s.vb), Len(s.nv), Cardinality(DOMAIN s.t2v), Len(s.alerts)>>
+MergeTrace(ents) ==
+    FoldL(LAMBDA acc, e : [st |-> MergeEntity(acc.st, e), sizes |-> Append(acc.sizes, Sizes(MergeEntity(acc.st, e)))],
+          [st |-> EmptyState, sizes |-> <<Sizes(EmptyState)>>], ents).sizes
+
 (* ------------------------------------------------------------------ *)
 (* declarative layer                                                    *)
 (* ------------------------------------------------------------------ *)
